@@ -16,9 +16,10 @@ ASSUMPTIONS = [
     "reference = sgp4.api.Satrec.twoline2rv(l1, l2, WGS72).sgp4(jd, fr) (Vallado's C++ code, accelerated build), "
     "called directly on the oracle-formatted text with jd = integer day + 0.5 and fr = exact fraction of day",
     "tolerances are the property's: wrapper |dr| <= |v| x 50 us + 1 mm, |dv| <= |a| x 50 us + 1e-6 m/s, or the "
-    "element sets at which the reference itself moves by more than twice that within 5/20/50 us (singular: "
-    "deep-space periodics divide by sin i, e.g. i within ~1e-4 deg of 180 deg) are labelled reference-singular, "
-    "not compared and not counted as non-trivial; "
+    "element sets at which the reference itself moves by more than twice that within 5/20/50 us "
+    "(reference-singular), or by more than a tenth of it when one of its inputs is nudged by one ulp "
+    "(reference-ill-conditioned: deep-space periodics divide by sin i, i within ~1e-3 deg of 180 deg), are "
+    "labelled, not compared and not counted as non-trivial; "
     "native 1 cm",
     "target dates and epochs UTC-labelled (label effects are C04's subject); EOP configuration 'zero' "
     "(TEME output does not depend on EOP; Date construction needs TAI-UTC)",
@@ -157,6 +158,51 @@ def wrapper_tols(sat, dt_us, rr, rv):
     return max(pos, spos) + 1e-3, max(vel, svel) + 1e-6, spos > 2 * pos or svel > 2 * vel
 
 
+def reference_noise(sat, dt_us, rr, rv):
+    """How far the reference state moves when its inputs are nudged by one unit in the last place:
+    the record is re-initialised through sgp4init with each of e, i, raan, argp, M, n moved by
+    +-1 ulp (and once unchanged).  Round-off inside an implementation acts like such nudges, so
+    two correct implementations cannot be expected to agree better than this.
+    Almost everywhere the answer is micrometres; for deep-space element sets within ~1e-3 deg of
+    i = 180 deg (the lunar-solar periodics are divided by sin i) it is decimetres to hectometres.
+    Returns (position noise [m], velocity noise [m/s])."""
+    import numpy as np
+    from sgp4.api import WGS72, Satrec
+
+    epoch = (sat.jdsatepoch - 2433281.5) + sat.jdsatepochF
+    base = dict(ecco=sat.ecco, argpo=sat.argpo, inclo=sat.inclo, mo=sat.mo, no_kozai=sat.no_kozai, nodeo=sat.nodeo)
+    trials = [dict(base)]
+    for k, x in base.items():
+        for sgn in (1.0, -1.0):
+            t = dict(base)
+            t[k] = math.nextafter(x, sgn * math.inf) if abs(x) > 1.0 or k in ("ecco", "no_kozai") else x + sgn * 2.3e-16
+            if k == "ecco" and not (0.0 <= t[k] < 1.0):
+                continue
+            trials.append(t)
+    npos = nvel = 0.0
+    for t in trials:
+        s = Satrec()
+        s.sgp4init(WGS72, "i", sat.satnum, epoch, sat.bstar, sat.ndot, sat.nddot, t["ecco"], t["argpo"], t["inclo"],
+                   t["mo"], t["no_kozai"], t["nodeo"])
+        err, r2, v2 = s.sgp4_tsince(dt_us / 60e6)
+        if err == 0:
+            npos = max(npos, float(np.linalg.norm(np.array(r2) * 1000.0 - rr)))
+            nvel = max(nvel, float(np.linalg.norm(np.array(v2) * 1000.0 - rv)))
+    return npos, nvel
+
+
+def comparable(sat, dt_us, rr, rv):
+    """(position tolerance, velocity tolerance, label or None): label names why the property's bound
+    cannot be decided at this input (tolerances are then infinite)."""
+    ptol, vtol, singular = wrapper_tols(sat, dt_us, rr, rv)
+    if singular:
+        return float("inf"), float("inf"), "reference-singular"
+    npos, nvel = reference_noise(sat, dt_us, rr, rv)
+    if npos > 0.1 * ptol or nvel > 0.1 * vtol:
+        return float("inf"), float("inf"), "reference-ill-conditioned"
+    return ptol, vtol, None
+
+
 # ------------------------------------------------------------------ wrapper
 
 
@@ -179,15 +225,14 @@ def check_wrapper(case):
             pass
         return dict(nt=False, cls=cls + [f"ref-error-{err}"])
     sv = _propagate(orb, date, case, f)
-    ptol, vtol, singular = wrapper_tols(sat, case["dt_us"], rr, rv)
-    if singular:
-        # the reference is not a continuous function of time at the 50 us scale here (it moves by
-        # > 2 |v| x 50 us within 50 us): "within the time resolution" cannot be decided; only the
-        # frame / date / finiteness of the result are checked
-        ptol = vtol = float("inf")
-        cls.append("reference-singular")
+    # where the reference is not a continuous function of time at the 50 us scale, or moves by more
+    # than a tenth of the bound when an input changes by one ulp, "within the time resolution"
+    # cannot be decided: only frame / date / finiteness of the result are checked there
+    ptol, vtol, undecidable = comparable(sat, case["dt_us"], rr, rv)
+    if undecidable:
+        cls.append(undecidable)
     ratio = compare(sv, date_dt, rr, rv, ptol, vtol, what="wrapper")
-    return dict(nt=abs(case["dt_us"]) > 60 * 10**6 and not singular,
+    return dict(nt=abs(case["dt_us"]) > 60 * 10**6 and not undecidable,
                 cls=cls + [f"mode:{case.get('mode', 'direct')}"], ratio=ratio)
 
 
@@ -223,9 +268,7 @@ def _propagate(orb, date, case, f):
         d2 = to_datetime(mjd2, us2)
         if err2 == 0:
             sv2 = other.propagate(Date(d2))
-            p2, v2, singular2 = wrapper_tols(sat2, case["dt2_us"], rr2, rv2)
-            if singular2:
-                p2 = v2 = float("inf")
+            p2, v2, _ = comparable(sat2, case["dt2_us"], rr2, rv2)
             compare(sv2, d2, rr2, rv2, p2, v2, what="wrapper-rebind")
         else:
             try:
